@@ -17,6 +17,19 @@ def oracle(c, o):
     return P.c01_structure(o, bool(c.get("Weight")), ex, rows)
 
 
+def gen(rng, tier):
+    from .. import gen_struct as G
+    cases = solcore.gen(rng, tier)
+    # a program that solves several structures at the same time (each in a goroutine of its own, one process):
+    # every one must get the answer it gets alone
+    for i in range(10 if tier == "quick" else 60):
+        s = [G.gen_portal, G.gen_beam, G.gen_chain][i % 3](rng)
+        c = core.case_from_struct(s, Weight=core.weights(i), Solve=True, Assemble=True, Error="1e-6", Concurrent=True)
+        c["kind"] += "+concurrent"
+        cases.append(c)
+    return cases
+
+
 def exact_applicable(c, o):
     return solcore.solved(o) and solcore.exact_of(c, o) not in (None, "singular")
 
@@ -24,7 +37,7 @@ def exact_applicable(c, o):
 SPEC = {
     "text_fidelity": True,
     "prop_file": ["Properties/C01.v", "Properties/C02_kernel.v"],
-    "gen": solcore.gen,
+    "gen": gen,
     "oracle": oracle,
     "corpus_opts": {"Solve": True, "Assemble": True},
     "stages": [("F", solcore.stageF, P.stageF_v, 2, None)],
